@@ -103,7 +103,15 @@ type StringLiteralExpression struct {
 
 func (self StringLiteralExpression) Kind() ExpressionKind { return StringLiteralExpressionKind }
 func (self StringLiteralExpression) Span() errors.Span    { return self.Range }
-func (self StringLiteralExpression) String() string       { return fmt.Sprintf("\"%s\"", self.Value) }
+func (self StringLiteralExpression) String() string {
+	// Escape the value so that the printed literal lexes back to the same string.
+	escaped := strings.ReplaceAll(self.Value, "\\", "\\\\")
+	escaped = strings.ReplaceAll(escaped, "\"", "\\\"")
+	escaped = strings.ReplaceAll(escaped, "\n", "\\n")
+	escaped = strings.ReplaceAll(escaped, "\t", "\\t")
+	escaped = strings.ReplaceAll(escaped, "\r", "\\r")
+	return fmt.Sprintf("\"%s\"", escaped)
+}
 
 //
 // Ident expression
